@@ -39,6 +39,34 @@ def _tls_fact(facts, polarity_true):
     return False
 
 
+NO_CONTAINER = [('self._ssl_context_container', False), ('self._ssl_context_container is None', True)]
+
+
+def _context_cases(g, node, expr, attr, allowed_off):
+    """Every value expr can take at node is the container's <attr>, or None under one of the `allowed_off` facts; and the
+    context is passed in at least one case.  Decided on value_cases: conditional expressions, if statements and local
+    aliases all look the same there."""
+    some, bad, wit = False, [], []
+    for facts, leaf in g.value_cases(node, expr):
+        t = unparse(leaf)
+        wit.append(f'{[f for f in facts.resolved]} => {t}')
+        if t == 'None':
+            if not any(f in facts for f in allowed_off):
+                bad.append(t)
+        elif t == f'self._ssl_context_container.{attr}':
+            some = True
+        else:
+            bad.append(t)
+    return some and not bad, wit
+
+
+def _context_argument(g, kw, attr, allowed_off):
+    sites = [(n, k.value) for n in g.real_nodes() for c in n.calls() for k in c.keywords if k.arg == kw]
+    if len(sites) != 1:
+        return False, f'{len(sites)} calls with a {kw} argument'
+    return _context_cases(g, sites[0][0], sites[0][1], attr, allowed_off)
+
+
 def plaintext_sites(repo):
     """(fi, node, kind) literal plaintext schemes in URL-forming code."""
     out = []
@@ -126,21 +154,18 @@ def run(ctx):  # noqa: C901, PLR0912, PLR0915
 
     # ------------------------------------------------------------------ R2
     pm = repo.func(f'{PV}._mk_soap_client')
-    kws = [k for c in calls_in(pm.node) for k in c.keywords if k.arg == 'ssl_context']
-    ok = len(kws) == 1 and unparse(kws[0].value) == \
-        'self._ssl_context_container.client_context if self._ssl_context_container else None'
+    ok, wit = _context_argument(cfg_of(pm), 'ssl_context', 'client_context', NO_CONTAINER)
     ctx.ob('C19.R2', 'provider clients', ok,
            'every SOAP client of the provider (notifications) gets the client context when a context container is set',
-           fi=pm, witness=[unparse(k.value) for k in kws])
+           fi=pm, witness=wit)
     callers = [f.qual for f in repo.funcs.values() for a in ast.walk(f.node) if isinstance(a, ast.Attribute)
                and a.attr == 'soap_client_class' and isinstance(a.ctx, ast.Load) and f.module.name.startswith('sdc11073.provider')]
     ctx.ob('C19.R2', 'single provider client factory', set(callers) == {pm.qual},
            'provider SOAP clients are created only in _mk_soap_client', where=PV, witness=sorted(set(callers)))
     cm = repo.func(f'{CO}._mk_soap_client')
-    src = unparse(cm.node)
-    ok = '_ssl_context = self._ssl_context_container.client_context if use_ssl else None' in src and \
-        'ssl_context=_ssl_context' in src
-    ctx.ob('C19.R2', 'consumer clients', ok, 'consumer SOAP clients get the client context whenever use_ssl is set', fi=cm)
+    ok, wit = _context_argument(cfg_of(cm), 'ssl_context', 'client_context', [('use_ssl', False)])
+    ctx.ob('C19.R2', 'consumer clients', ok, 'consumer SOAP clients get the client context whenever use_ssl is set', fi=cm,
+           witness=wit)
     gs = repo.func(f'{CO}.get_soap_client')
     src = unparse(gs.node)
     us = [n for n in walk_no_nested(gs.node) if isinstance(n, ast.Assign) and unparse(n.targets[0]) == 'use_ssl']
@@ -226,15 +251,12 @@ def run(ctx):  # noqa: C901, PLR0912, PLR0915
             if arg is None and len(c.args) >= 2:
                 arg = c.args[1]
             txt = unparse(arg) if arg is not None else ''
-            ok = txt.endswith('.server_context if self._ssl_context_container else None') or \
-                txt == 'ssl_context_container.server_context if ssl_context_container else None'
-            if ok and 'ssl_context_container.server_context if ssl_context_container' in txt and 'self.' not in txt:
-                la = [n for n in walk_no_nested(fi.node) if isinstance(n, ast.Assign) and
-                      unparse(n.targets[0]) == 'ssl_context_container']
-                ok = len(la) == 1 and unparse(la[0].value) == 'self._ssl_context_container if self.is_ssl_connection else None'
+            g = cfg_of(fi)
+            ok, wit = (False, 'no ssl context argument') if arg is None else \
+                _context_cases(g, g.holder(c), arg, 'server_context', NO_CONTAINER + [('self.is_ssl_connection', False)])
             ctx.ob('C19.R4', f'{fi.name}: server context', ok,
                    f'{fi.cls.name}.{fi.name}: the HTTP server gets the server context whenever TLS is configured / in use',
-                   fi=fi, node=c, witness=txt)
+                   fi=fi, node=c, witness={'argument': txt, 'cases': wit})
     ctx.floor('C19.R4', n_srv, 2, 'HttpServerThreadBase constructions')
     hr = repo.func('sdc11073.httpserver.httpserverimpl.HttpServerThreadBase.run')
     g = cfg_of(hr)
